@@ -94,6 +94,9 @@ MATCHSETS = {
     'one inside': [('TWPRGE', '154n97w', 12, 22)],
     'two': [('TWPRGE', '154n97w', 5, 15), ('TWPRGE', '155n97w', 30, 40)],
     'three': [('TWPRGE', '154n97w', 0, 10), ('TWPRGE', '155n97w', 20, 30), ('TWPRGE', '156n97w', 45, 55)],
+    # a Twp/Rge that is restated opens a chunk of its own like any other
+    'two, the same Twp/Rge restated': [('TWPRGE', '154n97w', 5, 15), ('TWPRGE', '154n97w', 30, 40)],
+    'three, A A B': [('TWPRGE', '154n97w', 0, 10), ('TWPRGE', '154n97w', 20, 30), ('TWPRGE', '155n97w', 45, 55)],
 }
 
 
